@@ -4,7 +4,7 @@ from __future__ import annotations
 import ast
 
 from .. import genparser
-from ..engine import AnalysisError, PropertySpec, norm
+from ..engine import AnalysisError, MechanismMissing, PropertySpec, norm
 from ..pyutil import call_name, calls, const_str, dotted, is_name, literal, walk_local
 
 GEN = "src/pymoca/backends/casadi/generator.py"
@@ -45,7 +45,7 @@ def _tokens(ctx, R):
     binary, unary = set(), set()
     for c in ("Expr_mulContext", "Expr_addContext", "Expr_relContext", "Expr_expContext", "Expr_andContext", "Expr_orContext"):
         if c not in tab:
-            raise AnalysisError(R, "alternative %s missing in generated expr()" % c)
+            raise MechanismMissing(R, "alternative %s missing in generated expr()" % c)
         binary |= set(tab[c]["tokens"])
     for c in ("Expr_signedContext", "Expr_notContext"):
         unary |= set(tab[c]["tokens"])
@@ -131,7 +131,7 @@ def r11_1(ctx, rep):
     normalise, steps = _normaliser(fn)
     chain = _dispatch(fn)
     if chain is None:
-        raise AnalysisError(R, "operator dispatch chain not found in Generator.exitExpression")
+        raise MechanismMissing(R, "operator dispatch chain not found in Generator.exitExpression")
     rep.extra["R11.1_normalisation_steps"] = steps
     for arity, toks in ((2, binary), (1, unary)):
         for tok in sorted(toks):
@@ -172,7 +172,7 @@ def r11_2(ctx, rep):
         rep.ob(R, GEN + ":OP_MAP", "entry %r -> %r" % (k, v), v in mx,
                "getattr(casadi.MX, %r) does not exist: every model using %r fails with AttributeError" % (v, k))
     if n < 12:
-        raise AnalysisError(R, "fewer than 12 producible OP_MAP entries")
+        raise MechanismMissing(R, "fewer than 12 producible OP_MAP entries")
 
 
 @SPEC.rule(
@@ -191,7 +191,7 @@ def r11_3(ctx, rep):
     fn = ctx.func(GEN, "Generator.exitExpression", R)
     chain = _dispatch(fn)
     if chain is None:
-        raise AnalysisError(R, "dispatch chain not found")
+        raise MechanismMissing(R, "dispatch chain not found")
 
     def branch(op, n):
         for test, body in chain:
